@@ -11,7 +11,7 @@ import (
 )
 
 func init() {
-	register("C10", "Determinism: (R1) order taint — every range over a Go map reachable from Validate/LoadSchema has a body limited to order-insensitive effects, and a slice built in map order is sorted by a total order before any other use; (R2) no other nondeterministic source (goroutines, select, channels, time, rand, environment, %p, pointer-to-integer conversions, reflect map iteration) is reachable; (R3) re-validation: the walker writes only the annotation fields and never reads an annotation from a node it reached by a lookup instead of by descent; (R4) validation does not modify the schema or package-level state (C11.R1/R2 over the validation scope), so a later validation sees what the first saw. With the standard library and levenshtein assumed deterministic this is close to the whole property. (R6) no process-wide state besides the rule registry.", runC10)
+	register("C10", "Determinism: (R1) order taint — every range over a Go map reachable from Validate/LoadSchema has a body limited to order-insensitive effects, and a slice built in map order is sorted by a total order before any other use; (R2) no other nondeterministic source (goroutines, select, channels, time, rand, environment, %p, pointer-to-integer conversions, reflect map iteration) is reachable; (R3) re-validation: the walker writes only the annotation fields and never reads an annotation from a node it reached by a lookup instead of by descent; (R4) validation does not modify the schema or package-level state (C11.R1/R2 over the validation scope), so a later validation sees what the first saw. With the standard library and levenshtein assumed deterministic this is close to the whole property. (R6) no process-wide state besides the rule registry. (R7) FragmentDefinition.Definition is read only by observers of the fragment event.", runC10)
 }
 
 func validationScope(p *Program, e *effects) map[*ssa.Function]bool {
@@ -275,6 +275,9 @@ func runC10(c *Ctx) {
 		}
 	}
 	treeWrites(c, e, docScope, r5, "validation code")
+
+	r7 := c.Rule("R7", "a link written when fragment definitions are walked is read only by observers of that event", 1)
+	c10FragmentLinkReaders(c, r7)
 
 	r6 := c.Rule("R6", "no process-wide state: package-level variables are only read after init (rule registry excepted)", 1)
 	noProcessState(c, r6, []string{"validator.Validate", "validator.ValidateWithRules", "gqlparser.LoadQuery", "gqlparser.LoadQueryWithRules", "parser.ParseQuery", "parser.ParseQueryWithTokenLimit"})
@@ -568,4 +571,59 @@ func isAppendCall(v ssa.Value) bool {
 	}
 	b, ok := c.Common().Value.(*ssa.Builtin)
 	return ok && b.Name() == "append"
+}
+
+// c10FragmentLinkReaders (C10.R7): FragmentDefinition.Definition is written when the fragment definition itself is
+// walked — after every operation. An observer of any other event that reads it (through spread.Definition.Definition)
+// sees nil on the first validation of a document and the value left over from that run on the second: the same
+// document object validated again gives a different answer. Only observers of the fragment event, which run right after
+// the store, may read it.
+func c10FragmentLinkReaders(c *Ctx, r *RuleResult) {
+	p := c.P
+	n := 0
+	for _, rel := range []string{"validator/rules", "validator"} {
+		for _, fn := range p.FuncsIn(rel) {
+			allInstrs(fn, func(in ssa.Instruction) {
+				u, ok := in.(*ssa.UnOp)
+				if !ok || u.Op != token.MUL {
+					return
+				}
+				fa, ok := u.X.(*ssa.FieldAddr)
+				if !ok {
+					return
+				}
+				nn, f, _, _ := fieldOf(fa)
+				if nn == nil || nn.Obj().Name() != "FragmentDefinition" || f != "Definition" {
+					return
+				}
+				// the observer this code belongs to
+				var obs *ssa.Function
+				for g := fn; g != nil; g = g.Parent() {
+					sig := g.Signature
+					if sig.Recv() == nil && sig.Params().Len() == 2 && typeIs(sig.Params().At(0).Type(), "/validator", "Walker") {
+						obs = g
+						break
+					}
+				}
+				root := rootFunc(fn)
+				if root.Signature.Recv() != nil && typeIs(root.Signature.Recv().Type(), "/validator", "Walker") {
+					return // the walker itself
+				}
+				n++
+				site := fmt.Sprintf("read of FragmentDefinition.Definition in %s at %s", p.FuncName(fn), p.Pos(u.Pos()))
+				if obs == nil {
+					r.Undecided(u.Pos(), p.FuncName(fn), "read of FragmentDefinition.Definition outside an observer", "the event during which this code runs is not known; whether the link has been written yet is not decided")
+					return
+				}
+				if typeIs(obs.Signature.Params().At(1).Type(), "/ast", "FragmentDefinition") {
+					r.OK(site, "in an observer of the fragment event, which runs after the walker stored the link")
+				} else {
+					r.Fail(u.Pos(), p.FuncName(fn), "FragmentDefinition.Definition read by an observer of another event", "this observer runs while operations are walked, before the walker links fragment definitions to their type: on a fresh document the field is nil, on a document validated before it holds the earlier result — the same document validated again gives a different answer")
+				}
+			})
+		}
+	}
+	if n == 0 {
+		r.OK("no rule reads FragmentDefinition.Definition", "")
+	}
 }
